@@ -3,7 +3,7 @@
 import sys
 NAMES = ["SendSync", "SendAsync", "Gate", "UserRecv", "PollA", "CloseA", "CloseB", "Kill", "Reopen"]
 SNAMES = ["Sync", "AsyncStart", "AsyncPoll", "AsyncDrop", "Conn", "Handle", "Open", "Close", "Cmd", "Gate", "Kill", "CmdFail"]
-SLEN = [4, 5, 3, 3, 2, 3, 2, 2, 2, 4, 1, 2]
+SLEN = [4, 5, 3, 3, 3, 3, 2, 2, 2, 4, 1, 2]
 def acts(c):
     cfg = c[:5]; n = c[5]; i = 6; out = []
     for _ in range(n):
